@@ -1,5 +1,5 @@
 /-
-The value-level rewrite rules of refurb's checks, as pairs of expressions of Model/PyVal.lean over
+The value-level (and, below, statement-level) rewrite rules of refurb's checks, as pairs of expressions of Model/PyVal.lean over
 operand variables.  Each row says which check proposes it, for which declared operand types, and
 whether only the truth value is observable (the check fires in condition position only).
 harness/props/c01.py checks on every run that refurb really proposes `new` for `old`.
@@ -17,6 +17,8 @@ structure Rule where
   new : PyExpr
   /-- the check only fires where the value is used as a condition: compare truthiness -/
   condPos : Bool := false
+  /-- non-empty for the rows of `guardedRules`: the part of the declared domain on which the rewrite is proved (in words) -/
+  guard : String := ""
   deriving Repr
 
 def x : PyExpr := .var "x"
@@ -31,6 +33,9 @@ def lListEmpty : PyExpr := .lit (.list [])
 def lTupleEmpty : PyExpr := .lit (.tuple [])
 
 def anyS : Option TypeName := none
+def w : PyExpr := .var "w"
+def lOne : PyExpr := .lit (.sc (.str ['1']))
+def lFloatZero : PyExpr := .lit (.sc (.flt (.whole 0)))
 
 def r108_eq_or_eq : Rule :=
   { code := 108, label := "eq-or-eq", vars := [("x", anyS), ("y", anyS), ("z", anyS)],
@@ -135,6 +140,140 @@ def r171_in_single : Rule :=
 def r192_sorted_0_ints : Rule :=
   { code := 192, label := "sorted-0:ints", vars := [("x", some .list)], old := .index0 (.sorted x), new := .minL x }
 
+
+/-! #### rows added in the second round -/
+
+def r102_startswith : Rule :=
+  { code := 102, label := "startswith", vars := [("x", some .str), ("y", anyS), ("z", anyS)],
+    old := .or_ (.startswith x y) (.startswith x z), new := .startswith x (.tup2 y z) }
+
+def r102_endswith : Rule :=
+  { code := 102, label := "endswith", vars := [("x", some .str), ("y", anyS), ("z", anyS)],
+    old := .or_ (.endswith x y) (.endswith x z), new := .endswith x (.tup2 y z) }
+
+def r102_not_startswith : Rule :=
+  { code := 102, label := "not-startswith", vars := [("x", some .str), ("y", some .str), ("z", some .str)],
+    old := .and_ (.not_ (.startswith x y)) (.not_ (.startswith x z)), new := .not_ (.startswith x (.tup2 y z)) }
+
+def r102_not_endswith : Rule :=
+  { code := 102, label := "not-endswith", vars := [("x", some .str), ("y", some .str), ("z", some .str)],
+    old := .and_ (.not_ (.endswith x y)) (.not_ (.endswith x z)), new := .not_ (.endswith x (.tup2 y z)) }
+
+def r109_in_list3 : Rule :=
+  { code := 109, label := "in-list3", vars := [("x", anyS), ("y", anyS), ("z", anyS), ("w", anyS)],
+    old := .in_ x (.list3 y z w), new := .in_ x (.tup3 y z w) }
+
+def r109_in_list1 : Rule :=
+  { code := 109, label := "in-list1", vars := [("x", anyS), ("y", anyS)], old := .in_ x (.list1 y), new := .in_ x (.tup1 y) }
+
+def r112_list : Rule := { code := 112, label := "list()", vars := [], old := .call0 .list, new := lListEmpty }
+def r112_tuple : Rule := { code := 112, label := "tuple()", vars := [], old := .call0 .tuple, new := lTupleEmpty }
+def r112_str : Rule := { code := 112, label := "str()", vars := [], old := .call0 .str, new := lStrEmpty }
+def r112_int : Rule := { code := 112, label := "int()", vars := [], old := .call0 .int, new := lInt 0 }
+def r112_bool : Rule := { code := 112, label := "bool()", vars := [], old := .call0 .bool, new := lFalse }
+def r112_float : Rule := { code := 112, label := "float()", vars := [], old := .call0 .float, new := lFloatZero }
+
+def r115_len_eq_0_tuple : Rule :=
+  { code := 115, label := "len-eq-0:tuple", vars := [("x", some .tuple)], old := .eq (.len x) (lInt 0), new := .not_ x, condPos := true }
+
+def r115_len_gt_0_str : Rule :=
+  { code := 115, label := "len-gt-0:str", vars := [("x", some .str)], old := .gt (.len x) (lInt 0), new := x, condPos := true }
+
+def r115_len_ne_0_list : Rule :=
+  { code := 115, label := "len-ne-0:list", vars := [("x", some .list)], old := .ne (.len x) (lInt 0), new := x, condPos := true }
+
+def r119_str : Rule :=
+  { code := 119, label := "fstring-str", vars := [("x", anyS)], old := .fstr (.strOf x), new := .fstr x }
+
+def r119_bin : Rule :=
+  { code := 119, label := "fstring-bin", vars := [("x", some .int)], old := .fstr (.radixOf .bin x), new := .fmtRadix .bin true x }
+
+def r119_oct : Rule :=
+  { code := 119, label := "fstring-oct", vars := [("x", some .int)], old := .fstr (.radixOf .oct x), new := .fmtRadix .oct true x }
+
+def r119_hex : Rule :=
+  { code := 119, label := "fstring-hex", vars := [("x", some .int)], old := .fstr (.radixOf .hex x), new := .fmtRadix .hex true x }
+
+def r121_int_str : Rule :=
+  { code := 121, label := "isinstance-or:int-str", vars := [("x", anyS)],
+    old := .or_ (.isinstance x .int) (.isinstance x .str), new := .isinstance2 x .int .str }
+
+def r121_bool_float : Rule :=
+  { code := 121, label := "isinstance-or:bool-float", vars := [("x", anyS)],
+    old := .or_ (.isinstance x .bool) (.isinstance x .float), new := .isinstance2 x .bool .float }
+
+def r121_list_tuple : Rule :=
+  { code := 121, label := "isinstance-or:list-tuple", vars := [("x", some .list)],
+    old := .or_ (.isinstance x .list) (.isinstance x .tuple), new := .isinstance2 x .list .tuple }
+
+def r124_eq_and_eq_mid : Rule :=
+  { code := 124, label := "eq-and-eq:shared-middle", vars := [("x", anyS), ("y", anyS), ("z", anyS)],
+    old := .and_ (.eq x y) (.eq y z), new := .chainEq x y z }
+
+def r124_eq_and_eq_rev : Rule :=
+  { code := 124, label := "eq-and-eq:second-reversed", vars := [("x", anyS), ("y", anyS), ("z", anyS)],
+    old := .and_ (.eq x y) (.eq z x), new := .chainEq x y z }
+
+def r136_max_ge_int : Rule :=
+  { code := 136, label := "max-ge:int", vars := [("x", some .int), ("y", some .int)], old := .ifExp x (.ge x y) y, new := .max2 x y }
+
+def r136_min_le_int : Rule :=
+  { code := 136, label := "min-le:int", vars := [("x", some .int), ("y", some .int)], old := .ifExp x (.le x y) y, new := .min2 x y }
+
+def r136_min_swapped_int : Rule :=
+  { code := 136, label := "min-swapped:int", vars := [("x", some .int), ("y", some .int)], old := .ifExp y (.gt x y) x, new := .min2 x y }
+
+def r136_max_swapped_int : Rule :=
+  { code := 136, label := "max-swapped:int", vars := [("x", some .int), ("y", some .int)], old := .ifExp y (.lt x y) x, new := .max2 x y }
+
+def r136_min_str : Rule :=
+  { code := 136, label := "min:str", vars := [("x", some .str), ("y", some .str)], old := .ifExp x (.lt x y) y, new := .min2 x y }
+
+def r149_ne_true : Rule :=
+  { code := 149, label := "ne-true", vars := [("x", some .bool)], old := .ne x lTrue, new := .not_ x }
+
+def r149_is_not_false : Rule :=
+  { code := 149, label := "is-not-false", vars := [("x", some .bool)], old := .isNot x lFalse, new := x }
+
+def r149_is_false : Rule :=
+  { code := 149, label := "is-false", vars := [("x", some .bool)], old := .is_ x lFalse, new := .not_ x }
+
+def r161_bit_count : Rule :=
+  { code := 161, label := "bit-count", vars := [("x", some .int)], old := .count (.radixOf .bin x) lOne, new := .bitCount x }
+
+def r161_bit_count_sliced : Rule :=
+  { code := 161, label := "bit-count:sliced", vars := [("x", some .int)], old := .count (.sliceFrom (.radixOf .bin x) (lInt 2)) lOne, new := .bitCount x }
+
+def r169_type_eq_none : Rule :=
+  { code := 169, label := "type-eq-none", vars := [("x", anyS)], old := .typeEqNone x, new := .is_ x lNone }
+
+def r169_type_ne_none : Rule :=
+  { code := 169, label := "type-ne-none", vars := [("x", anyS)], old := .typeNeNone x, new := .isNot x lNone }
+
+def r169_type_is_not_none : Rule :=
+  { code := 169, label := "type-is-not-none", vars := [("x", anyS)], old := .typeIsNotNone x, new := .isNot x lNone }
+
+def r171_in_single_list : Rule :=
+  { code := 171, label := "in-single:list", vars := [("x", anyS), ("y", anyS)], old := .in_ x (.list1 y), new := .eq x y }
+
+def r171_not_in_single : Rule :=
+  { code := 171, label := "not-in-single", vars := [("x", anyS), ("y", anyS)], old := .notIn x (.tup1 y), new := .ne x y }
+
+def r183_fstring : Rule :=
+  { code := 183, label := "fstring", vars := [("x", anyS)], old := .fstr x, new := .strOf x }
+
+def r188_removeprefix : Rule :=
+  { code := 188, label := "removeprefix", vars := [("x", some .str), ("y", some .str)],
+    old := .ifExp (.sliceFrom x (.len y)) (.startswith x y) x, new := .removeprefix x y }
+
+/-- FURB188 has no type guard at all: the same rewrite on operands of ANY scalar class (both sides raise unless both are strs) -/
+def r188_removeprefix_any : Rule :=
+  { code := 188, label := "removeprefix:any-operands", vars := [("x", anyS), ("y", anyS)],
+    old := .ifExp (.sliceFrom x (.len y)) (.startswith x y) x, new := .removeprefix x y }
+
+def r192_sorted_rev_0_ints : Rule :=
+  { code := 192, label := "sorted-reverse-0:ints", vars := [("x", some .list)], old := .index0 (.sortedRev x), new := .maxL x }
+
 def rules : List Rule := [
   r108_eq_or_eq,
   r109_in_list,
@@ -168,7 +307,87 @@ def rules : List Rule := [
   r168_isinstance_none,
   r169_type_is_none,
   r171_in_single,
-  r192_sorted_0_ints
+  r192_sorted_0_ints,
+  r102_startswith,
+  r102_endswith,
+  r102_not_startswith,
+  r102_not_endswith,
+  r109_in_list3,
+  r109_in_list1,
+  r112_list,
+  r112_tuple,
+  r112_str,
+  r112_int,
+  r112_bool,
+  r112_float,
+  r115_len_eq_0_tuple,
+  r115_len_gt_0_str,
+  r115_len_ne_0_list,
+  r119_str,
+  r119_bin,
+  r119_oct,
+  r119_hex,
+  r121_int_str,
+  r121_bool_float,
+  r121_list_tuple,
+  r124_eq_and_eq_mid,
+  r124_eq_and_eq_rev,
+  r136_max_ge_int,
+  r136_min_le_int,
+  r136_min_swapped_int,
+  r136_max_swapped_int,
+  r136_min_str,
+  r149_ne_true,
+  r149_is_not_false,
+  r149_is_false,
+  r161_bit_count,
+  r161_bit_count_sliced,
+  r169_type_eq_none,
+  r169_type_ne_none,
+  r169_type_is_not_none,
+  r171_in_single_list,
+  r171_not_in_single,
+  r183_fstring,
+  r188_removeprefix,
+  r188_removeprefix_any,
+  r192_sorted_rev_0_ints
+]
+
+/- rules that are FALSE on part of the domain their check accepts and PROVED on the rest: each has a refutation by witness
+   and a partial theorem under `guard` (Props/C01.lean) -/
+
+def g116_bin : Rule :=
+  { code := 116, label := "bin-slice", vars := [("x", some .int)], old := .sliceFrom (.radixOf .bin x) (lInt 2), new := .fmtRadix .bin false x,
+    guard := "0 <= x (the check's docstring: negative numbers differ)" }
+
+def g116_oct : Rule :=
+  { code := 116, label := "oct-slice", vars := [("x", some .int)], old := .sliceFrom (.radixOf .oct x) (lInt 2), new := .fmtRadix .oct false x,
+    guard := "0 <= x (the check's docstring: negative numbers differ)" }
+
+def g116_hex : Rule :=
+  { code := 116, label := "hex-slice", vars := [("x", some .int)], old := .sliceFrom (.radixOf .hex x) (lInt 2), new := .fmtRadix .hex false x,
+    guard := "0 <= x (the check's docstring: negative numbers differ)" }
+
+def g188_removesuffix : Rule :=
+  { code := 188, label := "removesuffix", vars := [("x", some .str), ("y", some .str)],
+    old := .ifExp (.sliceTo x (.neg (.len y))) (.endswith x y) x, new := .removesuffix x y,
+    guard := "y is not the empty string (x[:-0] is empty)" }
+
+def g192_sorted_last : Rule :=
+  { code := 192, label := "sorted-last", vars := [("x", some .list)], old := .indexLast (.sorted x), new := .maxL x,
+    guard := "x is a list of ints (ties between equal but distinguishable items: C01-furb192-ties)" }
+
+def g192_sorted_rev_last : Rule :=
+  { code := 192, label := "sorted-reverse-last", vars := [("x", some .list)], old := .indexLast (.sortedRev x), new := .minL x,
+    guard := "x is a list of ints (ties between equal but distinguishable items: C01-furb192-ties)" }
+
+def guardedRules : List Rule := [
+  g116_bin,
+  g116_oct,
+  g116_hex,
+  g188_removesuffix,
+  g192_sorted_last,
+  g192_sorted_rev_last
 ]
 
 /- rules whose full statement is false on part of their declared domain: the refuting variants -/
@@ -209,6 +428,8 @@ structure SRule where
   /-- the rule's blocks are rendered inside this many enclosing `for _ in range(1):` blocks (FURB128 only sees
       swaps below the top level of a function) -/
   nest : Nat := 0
+  /-- non-empty for the rows of `guardedSRules`: the part of the declared domain on which the rewrite is proved -/
+  guard : String := ""
 
 def acc : PyExpr := .var "acc"
 def e_ : PyExpr := .var "e"
@@ -260,6 +481,49 @@ def s148_index_unused : SRule :=
     old := [.forEnum "i" "e" xs_ [.append "acc" e_]], new := [.forIn "e" xs_ [.append "acc" e_]],
     advice := "Index is unused, use `for e in xs` instead", ignore := ["i"] }
 
+
+/-! #### rows added in the second round.  Lists are values in the block language: the in-place methods rebind the
+name, so these theorems say nothing about OTHER references to the same list (that `x = sorted(x)` -> `x.sort()` and
+`x = x[::-1]` -> `x.reverse()` change what an alias / the caller sees is the recorded finding C01-inplace-rewrites-alias). -/
+
+def s109_loop_over_list : SRule :=
+  { code := 109, label := "loop-over-list-display", vars := [("acc", some .list), ("a", anyS), ("b", anyS)],
+    old := [.forIn "e" (.list2 a_ b_) [.append "acc" e_]], new := [.forIn "e" (.tup2 a_ b_) [.append "acc" e_]],
+    advice := "Replace `in [x, y, z]` with `in (x, y, z)`" }
+
+def s131_del_slice : SRule :=
+  { code := 131, label := "del-slice", vars := [("xs", some .list)], old := [.delAll "xs"], new := [.clear "xs"],
+    advice := "Replace `del xs[:]` with `xs.clear()`" }
+
+def s131_slice_assign : SRule :=
+  { code := 131, label := "slice-assign-empty", vars := [("xs", some .list)], old := [.sliceAssignEmpty "xs"], new := [.clear "xs"],
+    advice := "Replace `xs[:] = []` with `xs.clear()`" }
+
+def s160_self_assign : SRule :=
+  { code := 160, label := "self-assign", vars := [("a", anyS)], old := [.assign "a" a_], new := [],
+    advice := "Remove redundant assignment of variable to itself" }
+
+def s186_sort : SRule :=
+  { code := 186, label := "sorted-assign", vars := [("xs", some .list)], old := [.assign "xs" (.sorted xs_)], new := [.sortIn "xs" false],
+    advice := "Replace `xs = sorted(xs)` with `xs.sort()`" }
+
+def s186_sort_reverse : SRule :=
+  { code := 186, label := "sorted-reverse-assign", vars := [("xs", some .list)], old := [.assign "xs" (.sortedRev xs_)], new := [.sortIn "xs" true],
+    advice := "Replace `xs = sorted(xs, reverse=True)` with `xs.sort(reverse=True)`" }
+
+def s187_slice_reverse : SRule :=
+  { code := 187, label := "slice-reverse-assign", vars := [("xs", some .list)], old := [.assign "xs" (.sliceRev xs_)], new := [.reverseIn "xs"],
+    advice := "Replace `xs = xs[::-1]` with `xs.reverse()`" }
+
+def s187_list_reversed : SRule :=
+  { code := 187, label := "list-reversed-assign", vars := [("xs", some .list)], old := [.assign "xs" (.listReversed xs_)], new := [.reverseIn "xs"],
+    advice := "Replace `xs = list(reversed(xs))` with `xs.reverse()`" }
+
+def s188_removeprefix : SRule :=
+  { code := 188, label := "if-startswith", vars := [("a", some .str), ("b", some .str)],
+    old := [.ifElse (.startswith a_ b_) [.assign "a" (.sliceFrom a_ (.len b_))] []], new := [.assign "a" (.removeprefix a_ b_)],
+    advice := "Replace `if a.startswith(b): a = a[len(b):]` with `a = a.removeprefix(b)`" }
+
 def srules : List SRule := [
   s113_two_appends,
   s125_trailing_return,
@@ -269,8 +533,26 @@ def srules : List SRule := [
   s133_trailing_continue,
   s138_loop_append,
   s138_loop_append_if,
-  s148_index_unused
+  s148_index_unused,
+  s109_loop_over_list,
+  s131_del_slice,
+  s131_slice_assign,
+  s160_self_assign,
+  s186_sort,
+  s186_sort_reverse,
+  s187_slice_reverse,
+  s187_list_reversed,
+  s188_removeprefix
 ]
+
+/-- FURB188, statement form, suffix: false for the empty suffix (`a[:-0]` is empty), proved for every other -/
+def gs188_removesuffix : SRule :=
+  { code := 188, label := "if-endswith", vars := [("a", some .str), ("b", some .str)],
+    old := [.ifElse (.endswith a_ b_) [.assign "a" (.sliceTo a_ (.neg (.len b_)))] []], new := [.assign "a" (.removesuffix a_ b_)],
+    advice := "Replace `if a.endswith(b): a = a[:-len(b)]` with `a = a.removesuffix(b)`",
+    guard := "b is not the empty string" }
+
+def guardedSRules : List SRule := [gs188_removesuffix]
 
 /- the same advice where refurb gives it although the rewrite is not behaviour-preserving: the refuting variants -/
 
